@@ -2,17 +2,98 @@
 import re
 
 
-def read(repo, rel):
+def strip_rust_comments(src):
+    """`//…` and `/*…*/` comments replaced by blanks (newlines kept, so line structure survives);
+    string, raw-string, byte-string and char literals are left alone"""
+    out = []
+    i, n = 0, len(src)
+    while i < n:
+        c = src[i]
+        if src.startswith("//", i):
+            j = src.find("\n", i)
+            j = n if j < 0 else j
+            i = j
+        elif src.startswith("/*", i):
+            depth, j = 1, i + 2
+            while j < n and depth:
+                if src.startswith("/*", j):
+                    depth += 1; j += 2
+                elif src.startswith("*/", j):
+                    depth -= 1; j += 2
+                else:
+                    j += 1
+            out.append("".join(ch if ch == "\n" else " " for ch in src[i:j]))
+            i = j
+        elif c == '"' or re.match(r'b?r#*"', src[i:i + 8]) or src.startswith('b"', i):
+            m = re.match(r'b?r(#*)"', src[i:])
+            if m:
+                end = src.find('"' + m.group(1), i + len(m.group(0)))
+                j = n if end < 0 else end + 1 + len(m.group(1))
+            else:
+                j = i + (2 if c == "b" else 1)
+                while j < n and src[j] != '"':
+                    j += 2 if src[j] == "\\" else 1
+                j += 1
+            out.append(src[i:j])
+            i = j
+        elif c == "'":
+            m = re.match(r"'(\\.[^']*|[^'\\])'", src[i:])
+            if m:
+                out.append(m.group(0))
+                i += len(m.group(0))
+            else:
+                out.append(c)
+                i += 1
+        else:
+            out.append(c)
+            i += 1
+    return "".join(out)
+
+
+def read(repo, rel, keep_comments=False):
+    """source text; Rust files are read WITHOUT their comments (a comment-only edit must not change
+    what an extractor sees) unless keep_comments is set"""
     with open(f"{repo}/{rel}") as f:
-        return f.read()
+        text = f.read()
+    if rel.endswith(".rs") and not keep_comments:
+        text = strip_rust_comments(text)
+    return text
+
+
+def _const_int_expr(expr):
+    """value of a constant integer expression made of literals (with `_` separators and an optional
+    integer-type suffix), + - * / % << >>, unary minus and parentheses — `40`, `4 * 10`, `1 << 5`,
+    `100_000usize`; anything else raises"""
+    import ast
+    src = re.sub(r"(?<=\d)_(?=\d)", "", expr)
+    src = re.sub(r"(\d)(?:usize|isize|u8|u16|u32|u64|u128|i8|i16|i32|i64|i128)\b", r"\1", src)
+    src = src.replace("/", "//")
+    tree = ast.parse(src.strip(), mode="eval")
+
+    def ev(n):
+        if isinstance(n, ast.Expression):
+            return ev(n.body)
+        if isinstance(n, ast.Constant) and isinstance(n.value, int) and not isinstance(n.value, bool):
+            return n.value
+        if isinstance(n, ast.UnaryOp) and isinstance(n.op, ast.USub):
+            return -ev(n.operand)
+        if isinstance(n, ast.BinOp):
+            a, b = ev(n.left), ev(n.right)
+            ops = {ast.Add: lambda: a + b, ast.Sub: lambda: a - b, ast.Mult: lambda: a * b,
+                   ast.FloorDiv: lambda: a // b, ast.Mod: lambda: a % b,
+                   ast.LShift: lambda: a << b, ast.RShift: lambda: a >> b}
+            if type(n.op) in ops:
+                return ops[type(n.op)]()
+        raise ValueError(f"not a constant integer expression: {expr!r}")
+    return ev(tree)
 
 
 def const_usize(text, name):
-    """`const NAME: usize = 40;` -> 40"""
-    m = re.search(rf"const\s+{name}\s*:\s*\w+\s*=\s*([0-9_]+)\s*;", text)
+    """`const NAME: usize = 40;` -> 40  (also `4 * 10`, `1 << 5`, `100_000`, with or without `pub`)"""
+    m = re.search(rf"(?:const|static)\s+{name}\s*:\s*[\w:]+\s*=\s*([^;]+);", text)
     if not m:
         raise ValueError(f"constant {name} not found")
-    return int(m.group(1).replace("_", ""))
+    return _const_int_expr(m.group(1))
 
 
 def fn_body(text, signature_regex):
